@@ -31,6 +31,8 @@ type Case struct {
 	CRLF   bool `json:"crlf,omitempty"` // files written with Windows line endings
 	// Baseline > 0 (dry runs): the database already holds a user table and the command carries --baseline <version of file Baseline>
 	Baseline int `json:"baseline,omitempty"`
+	// Prompt (schema apply): no --auto-approve; the confirmation prompt is answered with Enter (= Apply) on standard input
+	Prompt bool `json:"prompt,omitempty"`
 	// Ckpt: 0-based indexes of the files that are checkpoints. A fresh database starts at the last one (which creates the
 	// journal itself, IF NOT EXISTS, as its first statement); the files before it never run and are never recorded.
 	Ckpt []int `json:"ckpt,omitempty"`
@@ -443,16 +445,24 @@ func checkSchemaApply(c Case) (Outcome, error) {
 	args := []string{"schema", "apply", "--url", "sqlite://" + dbp, "--to", "file://schema.sql", "--dev-url", "sqlite://dev?mode=memory"}
 	if c.DryRun {
 		args = append(args, "--dry-run")
-	} else {
+	} else if !c.Prompt {
 		args = append(args, "--auto-approve")
 	}
-	r := sb.Run(args...)
+	var r cli.Result
+	if c.Prompt && !c.DryRun {
+		r = sb.RunIn("\n", nil, args...)
+		if !strings.Contains(r.Stdout+r.Stderr, "Apply") {
+			return out, fmt.Errorf("harness: the confirmation prompt was not shown: %v", r)
+		}
+	} else {
+		r = sb.Run(args...)
+	}
 	after, err := dump()
 	if err != nil {
 		return out, fmt.Errorf("harness: %v", err)
 	}
 	out.Fired = true
-	out.Class = fmt.Sprintf("schema-apply/variant=%d/dry=%v", c.Variant%3, c.DryRun)
+	out.Class = fmt.Sprintf("schema-apply/variant=%d/dry=%v/prompt=%v", c.Variant%3, c.DryRun, c.Prompt)
 	if !c.DryRun && r.Code == 0 {
 		return out, fmt.Errorf("harness: the engineered plan was expected to fail on the data: %v", r)
 	}
